@@ -182,6 +182,12 @@ def gen_layout(g, L, posmode):
     chrgrp = numpy.ones(L, dtype="int64")
     for c in cuts:
         chrgrp[c:] += 1
+    return chrgrp, gen_positions(g, chrgrp, posmode)
+
+
+def gen_positions(g, chrgrp, posmode):
+    """Genetic positions (Morgans) for a given assignment of the markers to chromosomes."""
+    L = len(chrgrp)
     if posmode == "spread":
         gaps = g.uniform(0.01, 0.6, L)
     elif posmode == "clustered":
@@ -209,7 +215,7 @@ def gen_layout(g, L, posmode):
             a = int(g.integers(0, len(pos) - 1)); b = int(g.integers(a + 2, len(pos) + 1))
             pos[a:b] = pos[a:b][::-1].copy()
         genpos[ix] = pos
-    return chrgrp, genpos
+    return genpos
 
 
 def gen_parents(g, n, L, scheme):
@@ -888,8 +894,21 @@ def case_uc(ctx, c):
     else:
         dec = dict(ndecn=nx, decn_space=numpy.stack([numpy.zeros(nx, dtype="int64"), numpy.ones(nx, dtype="int64")]),
                    decn_space_lower=numpy.zeros(nx, dtype="int64"), decn_space_upper=numpy.ones(nx, dtype="int64"))
+    fac = lib_factory(scheme, kind)
     common = dict(nparent=k, ncross=int(g.integers(1, 10)), nprogeny=int(g.integers(1, 50)), nself=nself, upper_percentile=pctl,
-                  vmatfcty=lib_factory(scheme, kind), gmapfn=H, unique_parents=unique, pgmat=pg, gpmod=mod, nobj=u.shape[1], **dec)
+                  vmatfcty=fac, gmapfn=H, unique_parents=unique, pgmat=pg, gpmod=mod, nobj=u.shape[1], **dec)
+    # half of the problems get a factory object that has served another request before (same parents, model, map function and
+    # cross sizes, another selfing depth - as when a protocol's nself is changed between two problem constructions)
+    gw = ctx.rng("uc-used-factory", c)
+    if gw.random() < 0.5:
+        other = [x for x in (0, 1, 2, 3) if x != nself][int(gw.integers(0, 3))]
+        try:
+            with Poison(ctx):
+                fac.from_gmod(gmod=mod, pgmat=pg, ncross=common["ncross"], nprogeny=common["nprogeny"], nself=other, gmapfn=H)
+            icls += ", factory object served another selfing depth before"
+            summary["factory_used_before_with_nself"] = other
+        except Exception as e:
+            ctx.raised(type(fac).__name__ + ".from_gmod (request before the problem construction)", e)
     try:
         with Poison(ctx):
             prob = P.from_pgmat_gpmod_xmap(xmap=xmap.copy(), **common) if via_xmap else P.from_pgmat_gpmod(**common)
@@ -1039,6 +1058,195 @@ def case_large(ctx, c):
                   witness=dict(summary, mem=mem), coords=coords)
 
 
+# ---------------------------------------------------------------- family 5: the same factory object / class asked again
+SEQ_CHANGES = [
+    "nself", "nself", "nself", "nself and nprogeny",
+    "new pgmat object, other genotypes", "same pgmat object, genotypes replaced through the mat setter",
+    "new pgmat object, other genetic positions", "same pgmat object, positions replaced through the vrnt_genpos setter",
+    "new model object, other effects", "same model object, effects replaced through the u_a setter",
+    "ncross and nprogeny", "mem", "new map function object",
+    "nothing", "nothing; the earlier result was reordered in place by the caller",
+]
+
+
+def seq_call(ctx, holder, scheme, kind, route, st):
+    """One request with the arguments of state ``st``.  holder = a factory object (asked through its method ``route``) or
+    None (the matrix class is asked through its classmethod ``route``)."""
+    if holder is None:
+        return build(ctx, scheme, kind, route, st["mod"], st["pg"], st["nmating"], st["nprogeny"], st["nself"], st["H"], st["mem"])
+    genetic = kind.endswith("genetic")
+    mk = {} if st["mem"] == "default" else {"mem": st["mem"]}
+    key = "gmod" if route == "from_gmod" else "algmod"
+    try:
+        with Poison(ctx):
+            fn = getattr(holder, route)
+            if genetic:
+                out = fn(pgmat=st["pg"], ncross=st["nmating"], nprogeny=st["nprogeny"], nself=st["nself"], gmapfn=st["H"], **mk, **{key: st["mod"]})
+            else:
+                out = fn(pgmat=st["pg"], nprogeny=st["nprogeny"], **mk, **{key: st["mod"]})
+        return out, None
+    except Exception as e:
+        return None, e
+
+
+def seq_expected(g, scheme, kind, st, n, budget):
+    """{index tuple: (expected entry, tuple class)} from the enumeration for the arguments held in ``st``."""
+    genetic = kind.endswith("genetic")
+    mchr, mpos, mh0, mh1, mu = on_map(st["chrgrp"], st["genpos"], st["h0"], st["h1"], st["u"])
+    E = O.Engine(O.interval_r(mchr, mpos, unlinked=not genetic))
+    hap = [(mh0[i], mh1[i]) for i in range(n)]
+    homoz = [bool((st["h0"][i] == st["h1"][i]).all()) for i in range(n)]
+    out = {}
+    for idx in pick_tuples(g, scheme, n, budget, homoz):
+        tc = tclass(scheme, idx, homoz)
+        if tc == "female == male, heterozygous parent":
+            continue
+        out[tuple(idx)] = (expected_entry(kind, O.exact_moments(E, scheme, hap, idx, st["nself"] if genetic else 0, mu, st["beta"])[1]), tc)
+    return out
+
+
+def case_seq(ctx, c):
+    """Two to four requests to ONE factory object (or one matrix class) with arguments that change between the requests;
+    every answer is judged against the enumeration for the arguments of its own request, and answers given earlier must
+    not be altered by later requests."""
+    from pybrops.popgen.gmap.HaldaneMapFunction import HaldaneMapFunction
+    g = ctx.rng("seq", c)
+    scheme = ["twoway", "threeway", "fourway", "dihybrid"][int(g.integers(0, 4))]
+    fkinds = [kd for (sc, kd) in FACTORIES if sc == scheme]
+    if g.random() < 0.6:
+        kind = fkinds[int(g.integers(len(fkinds)))]
+        via_factory = True
+    else:
+        kind = list(KINDS)[int(g.integers(0, 4))]
+        via_factory = False
+    genetic = kind.endswith("genetic")
+    L = int(g.integers(1, 5))
+    n = int(g.integers(2, 5)) if scheme != "fourway" else int(g.integers(2, 4))
+    posmode = POSMODES[int(g.integers(0, len(POSMODES)))]
+    chrgrp, genpos = gen_layout(g, L, posmode)
+    h0, h1, pcls = gen_parents(g, n, L, scheme)
+    u, beta, ucls = gen_effects(g, L)
+    nt = u.shape[1]
+    nselfs = [0, 1, 2, 3, INF, numpy.int64(1)]
+    st = {"h0": h0, "h1": h1, "u": u, "beta": beta, "chrgrp": chrgrp, "genpos": genpos, "H": HaldaneMapFunction(),
+          "nself": nselfs[int(g.integers(len(nselfs)))] if genetic else 0, "nmating": int(g.integers(1, 20)), "nprogeny": int(g.integers(1, 80)),
+          "mem": [None, 1, 2, L, 1024, "default"][int(g.integers(0, 6))]}
+    st["pg"], st["mod"] = make_inputs(h0, h1, chrgrp, genpos, u, beta, g, True, gen_umisc(g, nt))
+    holder = lib_factory(scheme, kind) if via_factory else None
+    hname = "factory object" if via_factory else "matrix class"
+    ncalls = int(g.integers(2, 5))
+    coords = [c, "seq"]
+    ctx.case("seq:%s/%s/%s" % (scheme, kind, hname), h0, h1, u, beta, chrgrp, genpos, nself_name(st["nself"]), st["mem"], ncalls,
+             trivial=bool((h0 == h0[0]).all() and (h1 == h0[0]).all()) or not u.any())
+    summary = {"family": "seq", "scheme": scheme, "class": lib_class(scheme, kind).__name__, "asked": hname, "calls": []}
+    if c % 29 == 0:
+        ctx.sample(summary)
+    tol = None
+    earlier = []                                   # [object returned, snapshot of its matrix]
+    prev_mat = None
+    for call in range(ncalls):
+        route = ["from_gmod", "from_algmod"][int(g.integers(0, 2))]
+        change = None
+        if call > 0:
+            pool = [x for x in SEQ_CHANGES if genetic or not (x.startswith("nself") or x == "new map function object")]
+            change = pool[int(g.integers(len(pool)))]
+            # new values are drawn outside every guarded library call
+            h0n, h1n, _ = gen_parents(g, n, L, scheme)
+            posn = gen_positions(g, st["chrgrp"], POSMODES[int(g.integers(0, len(POSMODES)))])
+            un = g.normal(size=(L, nt)) * 10.0 ** int(g.integers(-1, 2))
+            other_nself = [x for x in nselfs if x != st["nself"]]
+            try:
+                if change.startswith("nself"):
+                    st["nself"] = other_nself[int(g.integers(len(other_nself)))]
+                    if change == "nself and nprogeny":
+                        st["nprogeny"] = st["nprogeny"] + 1 + int(g.integers(0, 5))
+                elif change == "new pgmat object, other genotypes":
+                    st["h0"], st["h1"] = h0n, h1n
+                    st["pg"] = make_inputs(h0n, h1n, st["chrgrp"], st["genpos"], st["u"], st["beta"], g, True, None)[0]
+                elif change == "same pgmat object, genotypes replaced through the mat setter":
+                    st["pg"].mat = numpy.stack([h0n, h1n]).astype("int8")
+                    st["h0"], st["h1"] = h0n, h1n
+                elif change == "new pgmat object, other genetic positions":
+                    st["genpos"] = posn
+                    st["pg"] = make_inputs(st["h0"], st["h1"], st["chrgrp"], posn, st["u"], st["beta"], g, True, None)[0]
+                elif change == "same pgmat object, positions replaced through the vrnt_genpos setter":
+                    st["pg"].vrnt_genpos = posn.copy()
+                    st["genpos"] = posn
+                elif change == "new model object, other effects":
+                    st["u"] = un
+                    st["mod"] = make_inputs(st["h0"], st["h1"], st["chrgrp"], st["genpos"], un, st["beta"], g, True, None)[1]
+                elif change == "same model object, effects replaced through the u_a setter":
+                    st["mod"].u_a = un.copy()
+                    st["u"] = un
+                elif change == "ncross and nprogeny":
+                    st["nmating"] += 1 + int(g.integers(0, 5)); st["nprogeny"] += 1 + int(g.integers(0, 5))
+                elif change == "mem":
+                    st["mem"] = [m for m in (None, 1, 2, 3, 1024) if m != st["mem"]][int(g.integers(0, 4))]
+                elif change == "new map function object":
+                    st["H"] = HaldaneMapFunction()
+                elif change == "nothing; the earlier result was reordered in place by the caller":
+                    perm = numpy.roll(numpy.arange(n), 1 + int(g.integers(0, n - 1)))
+                    earlier[-1][0].reorder_taxa(perm)
+                    earlier[-1][1] = numpy.array(earlier[-1][0].mat, copy=True)
+            except Exception as e:
+                ctx.raised("preparing the next request (%s)" % change, e)
+                return
+        summary["calls"].append({"route": route, "changed": change, "nself": nself_name(st["nself"]), "mem": st["mem"], "ncross": st["nmating"],
+                                 "nprogeny": st["nprogeny"], "phase0": st["h0"].tolist(), "phase1": st["h1"].tolist(), "chrgrp": st["chrgrp"].tolist(),
+                                 "genpos": st["genpos"].tolist(), "u_a": st["u"].tolist()})
+        site = (FACTORIES[(scheme, kind)] if via_factory else lib_class(scheme, kind).__name__) + "." + route
+        icls = "changed since the previous request: %s" % change
+        obj, exc = seq_call(ctx, holder, scheme, kind, route, st)
+        if exc is not None:
+            if call > 0 and via_factory:
+                fobj, fexc = seq_call(ctx, lib_factory(scheme, kind), scheme, kind, route, st)
+                ctx.check("C12.sequence", fexc is not None, site, "raises only if a first request to a fresh factory object raises", icls,
+                          what="later request: %s; fresh factory: returned a matrix" % repr(exc)[:150], witness=summary, coords=coords)
+            ctx.raised(site + (" (first request)" if call == 0 else " (later request)"), exc)
+            return
+        M = numpy.asarray(obj.mat)
+        tol = entry_tol(kind, var_scale(st["u"]))
+        exp = seq_expected(g, scheme, kind, st, n, 24 if st["nself"] != INF else 12)
+        want_shape = (n,) * NTUP[scheme] + ((nt,) if kind.startswith("vmat") else (nt, nt))
+        ocls = order_class(st["chrgrp"], st["genpos"]) if genetic else ""
+        if call == 0:
+            # the first answer is the ordinary subject of C12.genetic / C12.genic (same keys as the mat family)
+            good = M.shape == want_shape
+            for idx, (e, tc) in (exp.items() if good else ()):
+                ok = close(M[idx], e, tol)
+                good = good and ok
+                ctx.sumnote("entries judged against the enumeration: " + type(obj).__name__)
+                ctx.check("C12.genetic" if genetic else "C12.genic", ok, site_of(scheme, kind),
+                          "entry == exact gamete enumeration" if genetic else "entry == exact gamete enumeration with all loci unlinked", tc + ocls,
+                          what="%s%s: reported %s, enumeration %s" % (type(obj).__name__, list(idx), numpy.ravel(M[idx])[:4].tolist(), numpy.ravel(e)[:4].tolist()),
+                          witness=dict(summary, index=list(idx)), coords=coords)
+            if not good:
+                return
+        else:
+            bad = None
+            if M.shape != want_shape:
+                bad = ("shape", M.shape, want_shape)
+            else:
+                for idx, (e, tc) in exp.items():
+                    if not close(M[idx], e, tol):
+                        bad = (list(idx), numpy.ravel(M[idx])[:4].tolist(), numpy.ravel(e)[:4].tolist())
+                        break
+            stale = bad is not None and prev_mat is not None and prev_mat.shape == M.shape and numpy.array_equal(prev_mat, M, equal_nan=True)
+            ctx.sumnote("seq: later requests judged (%s)" % hname)
+            ctx.check("C12.sequence", bad is None, site,
+                      "later request to the same %s: entry == exact gamete enumeration for the arguments of THIS request" % hname, icls,
+                      what=None if bad is None else "%s request %d: entry %s = %s, enumeration %s%s" % (
+                          type(obj).__name__, call + 1, bad[0], bad[1], bad[2], " (the matrix equals the answer to the previous request)" if stale else ""),
+                      witness=summary, coords=coords)
+            same = all(numpy.array_equal(numpy.asarray(o.mat), snap, equal_nan=True) for o, snap in earlier)
+            ctx.check("C12.sequence", same, site, "matrices returned by earlier requests are not altered by a later request", icls,
+                      witness=summary, coords=coords)
+            if bad is not None or not same:
+                return
+        earlier.append([obj, numpy.array(M, copy=True)])
+        prev_mat = earlier[-1][1]
+
+
 def gen_layout_one(g, L, posmode):
     """Strictly increasing genetic positions of L loci on one chromosome."""
     if posmode == "clustered":
@@ -1052,7 +1260,7 @@ def gen_layout_one(g, L, posmode):
 
 
 FAMILIES = {"mat": (case_mat, 3840, 16 * 4000), "chunk": (case_chunk, 640, 16 * 1000), "uc": (case_uc, 480, 16 * 640),
-            "large": (case_large, 40, 16 * 40)}
+            "large": (case_large, 40, 16 * 40), "seq": (case_seq, 480, 16 * 480)}
 
 
 def run_shard(ctx):
